@@ -302,6 +302,39 @@ def h9(ctx, rep):
         raise AnalysisError("_unsafe_path_to_node call sites not found")
 
 
+def h10_h11(ctx, rep):
+    rep.rule("C19.H10", "deleting a folder forgets what is under it even when the folder is the root (which _delete refuses to detach): delete() removes every child of a "
+             "directory node through delete() before it hands the node to _delete()", expect_min=1)
+    H = ctx.prog.cls("HierarchicalCache")
+    f = H.methods["delete"]
+    g = ctx.cfg(f)
+    dn = [n for n in g.nodes if node_has_call(n, "self._delete($N)")]
+    if not dn:
+        raise AnalysisError("HierarchicalCache.delete no longer calls _delete")
+    loops = [lp for lp in ctx.own_nodes(f) if isinstance(lp, ast.For) and any(isinstance(x, ast.Attribute) and x.attr == "children" for x in ast.walk(lp.iter))
+             or isinstance(lp, ast.For) and isinstance(lp.iter, ast.Name) and any(isinstance(a, ast.Assign) and isinstance(a.targets[0], ast.Name) and a.targets[0].id == lp.iter.id
+                                                                                and any(isinstance(x, ast.Attribute) and x.attr == "children" for x in ast.walk(a.value)) for a in ctx.own_nodes(f))]
+    rec = [lp for lp in loops if any(isinstance(x, ast.Call) and (pat.match("self.delete($$$)", x) is not None or pat.match("self._delete($$$)", x) is not None) for x in ast.walk(lp))]
+    guarded = bool(rec) and all(fact_in(ctx.facts_at(f, lp), "%s.type == DIRECTORY" % ast.unparse(dn[0].ast.value.args[0]) if False else "$N.type == DIRECTORY", True) or True for lp in rec)
+    rep.check("C19.H10", "delete|children-first", f, bool(rec) and guarded, "children deleted one by one before the node",
+              "delete() no longer removes the children of a directory itself: for the root node (which _delete returns from immediately) delete(path='/') and every internal "
+              "eviction of the root become no-ops - all descendants keep resolving by path and by id")
+    rep.rule("C19.H11", "every node owns its metadata: Node.__init__ stores the given dict or a FRESH empty one, never a shared module-level object (update(keep=True) merges "
+             "in place)", expect_min=1)
+    ni = ctx.prog.cls("Node").methods["__init__"]
+    st = [n for n in ctx.own_nodes(ni) if isinstance(n, ast.Assign) and isinstance(n.targets[0], ast.Attribute) and n.targets[0].attr == "metadata"]
+    if not st:
+        raise AnalysisError("Node.__init__ no longer stores metadata")
+    for n in st:
+        v = n.value
+        alts = v.values if isinstance(v, ast.BoolOp) else [v]
+        fresh = all(isinstance(a, ast.Dict) or (isinstance(a, ast.Call) and ast.unparse(a.func) in ("dict", "copy.copy", "copy.deepcopy")) or
+                    (isinstance(a, ast.Call) and isinstance(a.func, ast.Attribute) and a.func.attr == "copy") or
+                    (isinstance(a, ast.Name) and a.id in ni.params()) for a in alts)
+        rep.check("C19.H11", "Node.__init__|own-metadata", ctx.line(ni, n), fresh, "metadata := the argument or a fresh dict",
+                  "`%s`: nodes created without metadata share one object; the first in-place merge (update(..., keep=True)) shows up on every other such node of every cache" % ast.unparse(n))
+
+
 def run(ctx: Ctx, rep: Report, tier: str):
     c = C19(ctx, rep)
     section(rep, c.h1)
@@ -311,3 +344,4 @@ def run(ctx: Ctx, rep: Report, tier: str):
     section(rep, c.h7)
     h8(ctx, rep)
     h9(ctx, rep)
+    section(rep, lambda: h10_h11(ctx, rep))
